@@ -102,6 +102,21 @@ def gen_cases(rng, tier):
       mag = "y_near_largest_double"
     cases.append({"kind": "reader", "x": xs, "y": ys, "seed": rng.randrange(1 << 30), "final_newline": bool(k % 2), "crlf": False, "shuffle": k % 4 == 0,
                   "comments": False, "spellings": False, "magnitude": mag})
+  # flat and nearly flat stretches (equal neighbouring y values: the interpolant is that value, not one ulp off it)
+  for k in range(8 if tier == "quick" else 60):
+    nrows = rng.choice([2, 3, 5])
+    xs = sorted(set(round(rng.uniform(-3.0, 9.0), 3) for _ in range(nrows + 2)))[:nrows]
+    if len(xs) < 2:
+      xs = [0.0, 1.0]
+    c_ = rng.choice([0.3, 0.1, 1.0 / 3.0, -0.7, 1e-3, 123.456, 0.1 + 0.2])
+    ys = [c_ if rng.random() < 0.7 else c_ * (1 + 2.0 ** -52) for _ in xs]
+    cases.append({"kind": "reader", "x": xs, "y": ys, "seed": rng.randrange(1 << 30), "final_newline": True, "crlf": False, "shuffle": False,
+                  "comments": False, "spellings": False, "magnitude": "flat_segments", "dense_queries": 1})
+  # a row whose x is not a number (nan) or not finite among ordinary rows: the file is refused, or the ordinary rows are
+  # still found (a nan in a sort leaves the rows in no order at all)
+  for k in range(6 if tier == "quick" else 40):
+    xs, ys = gen_data(rng, rng.choice([4, 6, 9]))
+    cases.append({"kind": "reader_nonfinite_x", "x": xs, "y": ys, "bad": rng.choice(["nan", "NaN", "-nan", "inf", "-inf"]), "at": rng.randrange(len(xs) + 1), "seed": rng.randrange(1 << 30)})
   # files without a single data row (empty, comments and blank lines only): nothing is tabulated, so every x is outside
   for k in range(4 if tier == "quick" else 12):
     cases.append({"kind": "reader_empty", "text": ["", "# nothing here\n", "\n\n   \n", "# a\n\n# b", "#\r\n\r\n"][k % 5], "seed": rng.randrange(1 << 30)})
@@ -306,14 +321,14 @@ def run_reader(case, ctx):
                     what="reader_data_point", last_row=str(i == len(rows) - 1), final_newline=str(case["final_newline"]))
       return
   for (a, b), (c, d) in zip(rows, rows[1:]):
-    for t in (0.25, 0.5, 0.9):
+    for t in ((0.25, 0.5, 0.9) if not case.get("dense_queries") else [j_ / 37.0 for j_ in range(1, 37)]):
       q = a + (c - a) * t
       v = f(q)
       from fractions import Fraction as Fr
       want = float(Fr(b) + (Fr(d) - Fr(b)) * (Fr(q) - Fr(a)) / (Fr(c) - Fr(a)))      # exact: no overflow / underflow on the way
       ctx.count("reader_points")
       lo, hi = min(b, d), max(b, d)
-      tol = 1e-9 * (abs(lo) + abs(hi) + 1e-300)
+      tol = 0.0       # "a value between the two neighbouring y values": not one ulp outside them either (flat segments!)
       if not (lo - tol <= v <= hi + tol) or not (abs(v - want) <= 1e-9 * max(abs(b), abs(d), 1e-300)):
         ctx.violation("reader_interpolation", "TableReader(%r) = %r, linear interpolant between (%r,%r) and (%r,%r) is %r" % (q, v, a, b, c, d, want), what="reader_interpolation")
         return
@@ -323,6 +338,34 @@ def run_reader(case, ctx):
       ctx.violation("reader_outside", "TableReader(%r) = %r outside [%r, %r]" % (q, f(q), xs[0], xs[-1]), what="reader_outside")
       return
   ctx.nontrivial(len(rows) >= 2)
+
+
+def run_reader_nonfinite_x(case, ctx):
+  import atsim.potentials as ap
+  ctx.cls("reader_row_with_nonfinite_x:" + case["bad"].lower().lstrip("-"))
+  rng = random.Random(case["seed"])
+  rows = list(zip(case["x"], case["y"]))
+  rng.shuffle(rows)
+  lines = ["%r %r" % (a, b) for a, b in rows]
+  lines.insert(case["at"], "%s 5.0" % case["bad"])
+  try:
+    f = ap.TableReader(io.StringIO("\n".join(lines) + "\n"))
+  except Exception as e:
+    ctx.count("reader_nonfinite_refused")
+    ctx.nontrivial(True)
+    return
+  for a, b in rows:
+    ctx.count("reader_points")
+    try:
+      v = f(a)
+    except Exception as e:
+      et, fn = exc_sig(e)
+      ctx.violation("reader_exception", "TableReader accepted a file with an x of %s, then failed at a tabulated x: %s %s" % (case["bad"], et, e), what="reader_exception", exc=et, final_newline="nonfinite")
+      return
+    if v != b:
+      ctx.violation("reader_data_point", "TableReader accepted a file holding a row with x = %s; TableReader(%r) = %r, tabulated %r" % (case["bad"], a, v, b), what="reader_data_point", last_row="False", final_newline="nonfinite")
+      return
+  ctx.nontrivial(True)
 
 
 def run_reader_empty(case, ctx):
@@ -409,4 +452,4 @@ def run_plot(case, ctx):
 
 def run_case(case, ctx):
   ctx.cls("kind:" + case["kind"])
-  return {"table": run_table, "reader": run_reader, "plot": run_plot, "reader_empty": run_reader_empty}[case["kind"]](case, ctx)
+  return {"table": run_table, "reader": run_reader, "plot": run_plot, "reader_empty": run_reader_empty, "reader_nonfinite_x": run_reader_nonfinite_x}[case["kind"]](case, ctx)
